@@ -45,12 +45,12 @@ fn mk_scenario(id: u64, seed: u64, forced_seed: Option<u64>) -> Value {
     let fail_on = r.random_bool(0.35);
     let steps = r.random_range(30..=70u64);
     let fams_net = ["udp", "tcp", "none"];
-    let fams_loc = ["tokio", "fs", "uring", "none"];
+    let fams_loc = ["tokio", "fs", "uring", "fsdur"];
     let mut hosts = Vec::new();
     let fam0 = fams_net[r.random_range(0..2)];
     for h in 0..n {
         let net = if n == 1 { fams_net[r.random_range(0..3)] } else if r.random_bool(0.8) { fam0 } else { fams_net[r.random_range(0..3)] };
-        let loc = fams_loc[r.random_range(0..3)];
+        let loc = fams_loc[r.random_range(0..4)];
         let mut fsops = Vec::new();
         if loc == "fs" {
             for _ in 0..r.random_range(10..=28) {
@@ -93,6 +93,16 @@ fn mk_scenario(id: u64, seed: u64, forced_seed: Option<u64>) -> Value {
     let curve = if r.random_bool(0.3) { json!(r.random_range(1..=9u32)) } else { Value::Null };
     let fail = if fail_on { r.random_range(1..=30u32) } else { 0 };
     let repair = if fail_on { r.random_range(10..=100u32) } else { 100 };
+    // durability pattern: a host with fs activity is crashed and bounced; its next incarnation starts by
+    // listing its directories (orphaned / durable inodes interleaved in creation order)
+    for (h, hv) in hosts.iter().enumerate() {
+        let loc = hv["loc"].as_str().unwrap_or("");
+        if loc == "fsdur" || (loc == "fs" && r.random_bool(0.5)) {
+            let s1 = r.random_range(4..=14u64);
+            ctl.push(json!({"step": s1, "op": "crash", "a": h, "b": h, "v": 0}));
+            ctl.push(json!({"step": s1 + r.random_range(1..=4u64), "op": "bounce", "a": h, "b": h, "v": 0}));
+        }
+    }
     // hold, traffic piles up, then a stalled release or manual delivery (early, so that a stall of
     // "virtual time so far + a few ticks" of real time stays short)
     if n >= 2 && r.random_bool(0.6) {
@@ -327,11 +337,76 @@ async fn prog_tokio(me: String, p: Value) {
     obs(&me, "timeout", json!(t.is_err()));
 }
 
+/// List a directory through the std and the tokio shim and log both orders.
+async fn list_both(me: &str, dir: &str) {
+    use turmoil::fs::shim::std::fs as sfs;
+    use turmoil::fs::shim::tokio::fs as tfs;
+    let names = |rd: std::io::Result<sfs::ReadDir>| -> Value {
+        match rd {
+            Ok(rd) => json!(rd
+                .map(|e| match e {
+                    Ok(e) => e.file_name().to_string_lossy().to_string(),
+                    Err(e) => format!("err:{:?}", e.kind()),
+                })
+                .collect::<Vec<String>>()),
+            Err(e) => json!(format!("{:?}", e.kind())),
+        }
+    };
+    let a = names(sfs::read_dir(dir));
+    let b = names(tfs::read_dir(dir).await);
+    obs(me, "list", json!({"dir": dir, "std": a, "tokio": b}));
+}
+
+/// Durability pattern: every incarnation first lists what survived, then writes /wal/w<i> (fsync only: inode
+/// durable, directory entry not -> orphan at the next crash) interleaved with /seg/s<i> (fsync + sync_dir:
+/// fully durable). The controller crashes and bounces this host.
+async fn prog_fsdur(me: String, p: Value) {
+    use std::os::unix::fs::FileExt;
+    use turmoil::fs::shim::std::fs as sfs;
+    for d in ["/", "/seg", "/wal"] {
+        list_both(&me, d).await;
+    }
+    for f in ["/seg/s0", "/seg/s1", "/wal/w0", "/wal/w1"] {
+        obs(&me, "survivor", json!({"f": f, "res": match sfs::read(f) { Ok(b) => json!(b), Err(e) => json!(format!("{:?}", e.kind())) }}));
+    }
+    let r1 = sfs::create_dir("/seg");
+    let r2 = sfs::create_dir("/wal");
+    let r3 = sfs::sync_dir("/");
+    obs(&me, "dur_dirs", json!([ek(&r1), ek(&r2), ek(&r3)]));
+    let n = 3 + u(&p, "n") % 5;
+    for i in 0..n {
+        for (dir, pre, full) in [("/wal", "w", false), ("/seg", "s", true)] {
+            // every third segment file is not followed by a sync_dir of its own (durable only via a later one)
+            let full = full && i % 3 != 2;
+            let path = format!("{dir}/{pre}{i}");
+            let res = match sfs::OpenOptions::new().read(true).write(true).create(true).open(&path) {
+                Ok(file) => {
+                    let w = file.write_all_at(&[i as u8 + 1; 6], 0);
+                    let s = file.sync_all();
+                    let d = if full { ek(&sfs::sync_dir(dir)) } else { "skipped".to_string() };
+                    json!([ek(&w), ek(&s), d])
+                }
+                Err(e) => json!(format!("open:{:?}", e.kind())),
+            };
+            obs(&me, "dur_write", json!({"f": path, "res": res}));
+        }
+        if i % 2 == 1 {
+            tokio::time::sleep(Duration::from_millis(1)).await;
+        }
+    }
+    for d in ["/seg", "/wal"] {
+        list_both(&me, d).await;
+    }
+}
+
 async fn prog_fs(me: String, p: Value) {
     use std::os::unix::fs::FileExt;
     use turmoil::fs::shim::std::fs as sfs;
     use turmoil::fs::shim::tokio::fs as tfs;
     let ops = p["fsops"].as_array().cloned().unwrap_or_default();
+    // what survived the previous incarnation (if any)
+    list_both(&me, "/d0").await;
+    list_both(&me, "/d1").await;
     let _ = sfs::create_dir("/d0");
     if u(&p, "n") % 2 == 0 {
         let _ = sfs::create_dir("/d1");
@@ -510,6 +585,7 @@ async fn host_main(me: String, hid: u8, peers: Vec<String>, p: Value, v6: bool) 
         match loc.as_str() {
             "tokio" => prog_tokio(m2, p2).await,
             "fs" => prog_fs(m2, p2).await,
+            "fsdur" => prog_fsdur(m2, p2).await,
             "uring" => prog_uring(m2, p2).await,
             _ => {}
         }
